@@ -232,6 +232,32 @@ func (P *Prog) prefixEstablished(fs factSet, data *Term, exp []byte) (bool, stri
 			why = fmt.Sprintf("prefix checked is % x, expected % x", bs, exp)
 		}
 	}
+	// bytes.Equal(input[:n], prefix) with n == len(prefix) and len(input) >= n
+	// (the definition of bytes.HasPrefix written out)
+	for _, pat := range []string{"call<bytes.Equal>(slice(%D, %L, %H, _()), %P)", "call<bytes.Equal>(%P, slice(%D, %L, %H, _()))"} {
+		for _, b := range fs.matchAll([]factPat{fp(pat)}, bindings{"D": data}) {
+			if lo := b["L"]; lo.Op != "_" {
+				if n, ok := P.foldIntG(lo); !ok || n != 0 {
+					continue
+				}
+			}
+			bs, ok := P.evalBytes(b["P"])
+			if !ok {
+				continue
+			}
+			if n, ok := P.foldIntG(b["H"]); !ok || n != int64(len(bs)) {
+				continue
+			}
+			if string(bs) != string(exp) {
+				why = fmt.Sprintf("prefix checked is % x, expected % x", bs, exp)
+				continue
+			}
+			if fs.lenLowerBound(data, P.foldIntG) >= int64(len(exp)) {
+				return true, fmt.Sprintf("bytes.Equal(input[:%d], % x) with len(input) >= %d", len(bs), bs, len(bs))
+			}
+			why = "input[:n] compared but the input length is not bounded below"
+		}
+	}
 	// a hand-written prefix predicate
 	for _, pr := range P.prefixFacts(fs) {
 		if pr[0].eq(data) {
